@@ -61,4 +61,4 @@ def time_indices(z):
     if x.shape[0] == 0:
         return []
     x = x.reshape(x.shape[0], -1)[:, 0] if x.ndim > 1 else x
-    return [int(round(float(v.real))) for v in x]
+    return [int(round(float(v.real))) % 1000000 for v in x]     # drop the element label (index_data)
